@@ -4,7 +4,7 @@ import "fmt"
 
 // allowWrapped: wrapped-currency allowance of a block: locks and failed-redeem refunds that
 // reached witness finality in it (the tracker completed in this block).
-func (b *BlockRecord) allowWrapped(prev *AbsState) map[string]int64 {
+func (b *BlockRecord) allowWrapped(prev *AbsState, cur string) map[string]int64 {
 	out := map[string]int64{}
 	if b.State == nil {
 		return out
@@ -59,7 +59,7 @@ func (b *BlockRecord) allowWrapped(prev *AbsState) map[string]int64 {
 		}
 		th := len(wits)*2/3 + 1
 		if (t.Type == "lock" && yes >= th) || (t.Type == "redeem" && no >= th) {
-			out["ETH"] += t.Amt
+			out[cur] += t.Amt // the wrapped currency of the side the workload is on (ETH, or the token's)
 		}
 	}
 	return out
